@@ -183,6 +183,8 @@ def expr(ctx: Ctx, e, want=None) -> str:
         return c
     if isinstance(e, ast.Constant):
         v = e.value
+        if v is not None and want and want.startswith("Option "):
+            return f"(some {expr(ctx, e, want[7:].strip('()'))})"
         if isinstance(v, bool):
             return "true" if v else "false"
         if isinstance(v, int):
@@ -564,6 +566,14 @@ def block(ctx: Ctx, stmts, ret_wrap, ind="  ") -> str:
         return ctx.ctl["break"]()
     if isinstance(s, ast.For):
         return for_loop(ctx, s, rest, ret_wrap, ind)
+    if isinstance(s, ast.While):
+        return while_loop(ctx, s, rest, ret_wrap, ind)
+    if isinstance(s, ast.Expr) and isinstance(s.value, ast.Call):
+        rz = getattr(ctx, "raisers", {}).get(norm(ast.unparse(s.value)))
+        if rz is not None:
+            # a call statement whose only effect on the model is that it raises when a condition holds
+            cond, exc = rz
+            return f"if {cond} then {ctx.raise_wrap(exc)} else\n{ind}" + block(ctx, rest, ret_wrap, ind)
     if isinstance(s, ast.Try):
         # `try: X = <call> except <E>: [log] X = <fallback>`: the call is an Option-valued oracle (`none` = it raised).
         # With fallback `None` the variable itself is the Option (covers "returned None" and "raised NotImplementedError").
@@ -613,6 +623,18 @@ def block(ctx: Ctx, stmts, ret_wrap, ind="  ") -> str:
         if isinstance(s, ast.Assign) and len(s.targets) != 1:
             raise Untranslatable("chained assignment")
         tgt = s.targets[0] if isinstance(s, ast.Assign) else s.target
+        if isinstance(tgt, ast.Tuple) and not isinstance(s.value, ast.Tuple) and lookup_const(ctx, s.value) is not None \
+                and all(isinstance(t_, ast.Name) for t_ in tgt.elts):
+            vt = lookup_type(ctx, s.value) or ""
+            parts = split_prod(vt, len(tgt.elts))
+            if parts is None:
+                raise Untranslatable(f"tuple assignment from a call of type {vt!r}")
+            for t_, p_ in zip(tgt.elts, parts):
+                ctx.types[t_.id] = p_[1:-1] if p_.startswith("(") and p_.endswith(")") else p_
+                if hasattr(ctx, "defined"):
+                    ctx.defined.add(t_.id)
+            names = "(" + ", ".join(li(t_.id) for t_ in tgt.elts) + ")"
+            return f"let {names} := {lookup_const(ctx, s.value)}\n{ind}" + block(ctx, rest, ret_wrap, ind)
         if isinstance(tgt, ast.Tuple):
             if not isinstance(s.value, ast.Tuple) or len(s.value.elts) != len(tgt.elts):
                 raise Untranslatable("tuple assignment from non-tuple")
@@ -919,6 +941,7 @@ def for_loop(ctx, node, rest, ret_wrap, ind):
     sub.ret_type_full = ctx.ret_type_full
     sub.loop_counter = ctx.loop_counter
     sub.join = getattr(ctx, "join", "scalar")
+    sub.raisers = getattr(ctx, "raisers", {})
     sub.defined = set(getattr(ctx, "defined", set())) | set(tgt_types)
     sub.ctl = {"continue": lambda: rec.strip(), "break": lambda: done}
     sub.fall = lambda: rec.strip()
@@ -944,6 +967,57 @@ def for_loop(ctx, node, rest, ret_wrap, ind):
         if not state:
             return block(ctx, rest, ret_wrap, ind)
         return f"let {st_tuple} := {call_.strip()}\n{ind}" + block(ctx, rest, ret_wrap, ind)
+    return (f"match {call_.strip()} with\n{ind}| .ret r_ => {ctx.propagate('r_')}\n{ind}| .done {st_tuple} =>\n{ind}  "
+            + block(ctx, rest, ret_wrap, ind + "  "))
+
+
+def while_loop(ctx, node, rest, ret_wrap, ind):
+    """`while cond: body` as a fuel-bounded recursion (`fuel` must be a parameter of the enclosing function); running out of
+    fuel raises "FuelExhausted" -- the accompanying theorem shows it cannot happen for the fuel the caller passes"""
+    if node.orelse:
+        raise Untranslatable("while ... else")
+    if not ctx.raises:
+        raise Untranslatable("while loop in a non-raising function")
+    if "fuel" not in {p for p, _ in ctx.all_params}:
+        raise Untranslatable("while loop needs a `fuel` parameter")
+    body = list(node.body)
+    known = set(getattr(ctx, "defined", set())) | {p for p, _ in ctx.all_params}
+    state = [v for v in assigned(body) if v in known]
+    for v in state:
+        if ctx.typ(v) in (None, "List _"):
+            raise Untranslatable(f"loop state variable {v} has no concrete type")
+    params = [pp for pp in ctx.all_params if pp[0] not in state and pp[0] != "fuel"]
+    ctx.loop_counter += 1
+    k = ctx.loop_counter
+    aux_name = f"{ctx.fn_name}_while{k}"
+    fixed = " ".join(li(p) for p, _ in params if not p.startswith(("{", "[")))
+    st_names = [li(v) for v in state]
+    st_types = [ctx.typ(v) for v in state]
+    sigma = " × ".join(f"({t})" for t in st_types) if len(state) > 1 else (st_types[0] if state else "Unit")
+    st_tuple = "(" + ", ".join(st_names) + ")" if len(state) > 1 else (st_names[0] if state else "()")
+    rho = ctx.ret_type_full
+    done = f".done {st_tuple}"
+    rec = f"{aux_name} {fixed} fuel_ " + " ".join(st_names)
+    sub = Ctx(ctx.types, ctx.consts, ctx.raises, ctx.source, ctx.default_num)
+    sub.fn_name, sub.all_params, sub.aux, sub.fn_wrap = ctx.fn_name, ctx.all_params, ctx.aux, ctx.fn_wrap
+    sub.ret_type_full, sub.loop_counter, sub.join = ctx.ret_type_full, ctx.loop_counter, getattr(ctx, "join", "scalar")
+    sub.raisers = getattr(ctx, "raisers", {})
+    sub.defined = set(getattr(ctx, "defined", set()))
+    sub.ctl = {"continue": lambda: rec.strip(), "break": lambda: done}
+    sub.fall = lambda: rec.strip()
+    sub.raise_wrap = lambda n: f".ret ({ctx.raise_wrap_fn(n)})"
+    sub.raise_wrap_fn = ctx.raise_wrap_fn
+    sub.propagate = lambda r: f".ret {r}"
+    cond = expr(sub, node.test)
+    body_txt = block(sub, body, lambda v: f".ret ({ctx.fn_wrap(v)})", "      ")
+    ctx.loop_counter = sub.loop_counter
+    sig = " ".join((f"{{{p[1:-1]} : {t}}}" if p.startswith("{") else p if p.startswith("[") else f"({li(p)} : {t})") for p, t in params)
+    st_sig = " → ".join(f"({t})" for t in st_types)
+    pats0 = ", ".join(["0"] + st_names)
+    pats1 = ", ".join(["fuel_ + 1"] + st_names)
+    ctx.aux.append(f"def {aux_name} {sig} : Nat → " + (st_sig + " → " if st_types else "") + f"Loop ({rho}) ({sigma})\n"
+                   f"  | {pats0} => .ret ({ctx.raise_wrap_fn('FuelExhausted')})\n  | {pats1} =>\n    if {cond} then\n      {body_txt}\n    else\n      {done}\n")
+    call_ = f"{aux_name} {fixed} fuel " + " ".join(st_names)
     return (f"match {call_.strip()} with\n{ind}| .ret r_ => {ctx.propagate('r_')}\n{ind}| .done {st_tuple} =>\n{ind}  "
             + block(ctx, rest, ret_wrap, ind + "  "))
 
@@ -976,6 +1050,7 @@ def translate_function(
     default_num=None,
     returns_var=None,
     join="scalar",
+    raisers=None,
 ):
     """Translate function `qual` (or a statement slice of it) into one Lean definition."""
     tree = ast.parse(source)
@@ -996,7 +1071,7 @@ def translate_function(
             raise Untranslatable(f"slice end {slice_to!r} not found in {qual}")
         stmts = stmts[:idx]
     if returns_var is not None:
-        stmts = stmts + [ast.Return(value=ast.Name(id=returns_var, ctx=ast.Load()))]
+        stmts = stmts + [ast.Return(value=ast.parse(returns_var, mode="eval").body)]
     t = dict(params)
     t.update(types or {})
     t["return"] = ret
@@ -1009,6 +1084,7 @@ def translate_function(
     ctx.raise_wrap_fn = lambda n: f'.error "{n}"'
     ctx.defined = set()
     ctx.join = join
+    ctx.raisers = {norm(k): v for k, v in (raisers or {}).items()}
     body = block(ctx, stmts, wrap)
     sig = " ".join((f"{{{k[1:-1]} : {v}}}" if k.startswith("{") else k if k.startswith("[") else f"({li(k)} : {v})") for k, v in list(extra_params) + list(params.items()))
     return "\n".join(ctx.aux) + ("\n" if ctx.aux else "") + f"def {lean_name} {sig} : {rty} :=\n  {body}\n"
